@@ -55,7 +55,8 @@ type Outcome struct {
 	Faults     map[string]int64
 	TasksAtEnd string
 	MaxTasks   int
-	SoloSites  []int64 // StatusLivelock: the sites the looping task went through
+	HotTasks   []HotTask // StatusLivelock: the tasks that consumed the steps, busiest first
+	DumpTask   int64     // StatusLivelock: the task whose stack is in PanicText (0 = none)
 }
 
 type tstate int
@@ -149,22 +150,26 @@ type fsWrite struct {
 }
 
 type kernel struct {
-	soloSince int64 // step at which the current task started running alone at the current instant
-	soloNow   int64
-	soloSites []int64 // distinct sites it went through since (capped)
-	cfg       Config
-	tasks     []*ktask // live tasks only (finished ones are removed)
-	ntask     int64    // ids handed out
-	live      int
-	locks     map[int64]*lockState
-	tmrs      timerHeap
-	byID      map[int64]*ktimer
-	now       int64
-	seq       int64
-	epoch     uint64
-	rng       uint64
-	tape      []uint32
-	tpos      int
+	winStart int64 // step at which the clock last moved or the harness last drove the scenario
+	winNow   int64
+	winOp    int64
+	bkt      [2]map[int64]int64 // steps per task in the previous and the current quarter of the budget
+	bktMarks [2]int64           // scenario-driver operations in them
+	bktStart [2]int64
+	winCount map[int64]int64 // steps per task since then
+	cfg      Config
+	tasks    []*ktask // live tasks only (finished ones are removed)
+	ntask    int64    // ids handed out
+	live     int
+	locks    map[int64]*lockState
+	tmrs     timerHeap
+	byID     map[int64]*ktimer
+	now      int64
+	seq      int64
+	epoch    uint64
+	rng      uint64
+	tape     []uint32
+	tpos     int
 
 	steps    int64
 	switches int64
@@ -252,8 +257,9 @@ func Run(cfg Config, driver func()) Outcome {
 		cfg.MaxSteps = 2_000_000
 	}
 	k := &kernel{cfg: cfg, locks: map[int64]*lockState{}, byID: map[int64]*ktimer{},
-		probes: map[string]int64{}, faults: map[string]int64{}, files: map[string][]byte{},
+		probes: map[string]int64{}, faults: map[string]int64{}, files: map[string][]byte{}, winCount: map[int64]int64{},
 		th: 14695981039346656037, sh: 14695981039346656037, rng: cfg.Seed}
+	k.bkt[0], k.bkt[1] = map[int64]int64{}, map[int64]int64{}
 	// driver task
 	t := newTaskCtx()
 	kt := &ktask{id: 1, ctx: t, kind: 1, state: tsRunnable, held: map[int64]int{}}
@@ -337,47 +343,119 @@ func (k *kernel) loop() {
 				k.tr("switch %d->%d", cur.id, next.id)
 			}
 		}
-		if next != cur || k.now != k.soloNow {
-			k.soloSince, k.soloNow = k.steps, k.now
-			k.soloSites = nil
-		}
 		k.wake(next)
 		cur = next
 		m := k.readMsg()
 		k.steps++
 		k.seq++
 		atomic.StoreInt64(&stepBeat, k.steps)
-		if len(k.soloSites) < 64 {
-			seen := false
-			for _, x := range k.soloSites {
-				if x == cur.lastSite {
-					seen = true
-				}
-			}
-			if !seen {
-				k.soloSites = append(k.soloSites, cur.lastSite)
+		if k.now != k.winNow || m.op == opSettle || m.op == opNetInject || m.op == opNetCtl || m.op == opFSCtl {
+			// the clock moved or the harness drove the scenario on: a new window
+			k.winStart, k.winNow = k.steps, k.now
+			k.winOp = m.op
+			for id := range k.winCount {
+				delete(k.winCount, id)
 			}
 		}
+		k.winCount[cur.id]++
+		// the same per task over fixed stretches of a quarter of the budget, whatever the clock does
+		if mark := m.op == opSettle || m.op == opNetInject || m.op == opNetCtl || m.op == opFSCtl; mark {
+			k.bktMarks[1]++
+		}
+		k.bkt[1][cur.id]++
+		if k.steps%(k.cfg.MaxSteps/4+1) == 0 {
+			k.bkt[0], k.bkt[1] = k.bkt[1], map[int64]int64{}
+			k.bktMarks[0], k.bktMarks[1] = k.bktMarks[1], 0
+			k.bktStart[0], k.bktStart[1] = k.bktStart[1], k.steps
+		}
 		if k.steps > k.cfg.MaxSteps {
-			k.tr("step budget exhausted")
-			// A run of the last quarter of the budget by one task alone, without the clock moving
-			// and through a handful of sites, is a loop that will never end, not a long scenario.
-			if solo := k.steps - k.soloSince; solo >= k.cfg.MaxSteps/4 && len(k.soloSites) < 64 {
-				k.out.Deadlock = fmt.Sprintf("task %d (kind=%d, started at site %d) executed the last %d scheduling points alone at virtual time %d through %d distinct site(s) %v", cur.id, cur.kind, cur.site, solo, k.now, len(k.soloSites), k.soloSites)
-				k.out.SoloSites = append([]int64(nil), k.soloSites...)
-				dumpReq = true
-				cur.ctx.in = reply{}
-				semrelease(&cur.ctx.sema, true, 0)
-				semacquire(&ksema)
-				k.out.PanicText = hangDump
-				k.end(StatusLivelock)
+			k.tr("step budget exhausted (%d steps since the clock moved or the driver acted, op %d)", k.steps-k.winStart, k.winOp)
+			// The last quarter of the budget (or more) spent at one virtual instant without the
+			// harness doing anything is a loop that will never end, not a long scenario.
+			if k.steps-k.winStart >= k.cfg.MaxSteps/4 {
+				if m.op == opExit || m.op == opPanic {
+					cur.state = tsDone // its goroutine is gone: no stack to ask for
+				}
+				k.livelock(cur)
 				return
+			}
+			// Or one task consumed a quarter or more of the last quarter to half of the budget (several
+			// times what a whole run needs) while the scenario driver did nothing; the clock may
+			// creep on through injected stalls.
+			k.tr("driver operations in the last two quarters: %d+%d", k.bktMarks[0], k.bktMarks[1])
+			if k.bktMarks[0]+k.bktMarks[1] == 0 && k.bktStart[1] > 0 {
+				total, top, topID := int64(0), int64(0), int64(0)
+				sum := map[int64]int64{}
+				for _, b := range k.bkt {
+					for id, n := range b {
+						sum[id] += n
+						total += n
+					}
+				}
+				for id, n := range sum {
+					if n > top || (n == top && id < topID) {
+						top, topID = n, id
+					}
+				}
+				k.tr("busiest task %d: %d of %d steps", topID, top, total)
+				if top*4 >= total {
+					k.winCount, k.winStart = sum, k.bktStart[0]
+					if m.op == opExit || m.op == opPanic {
+						cur.state = tsDone
+					}
+					k.livelock(cur)
+					return
+				}
 			}
 			k.end(StatusBudget)
 			return
 		}
 		k.handle(cur, m)
 	}
+}
+
+// HotTask describes a task that was busy while the run made no progress.
+type HotTask struct {
+	ID       int64
+	Kind     int
+	GoSite   int64
+	LastSite int64
+	Steps    int64
+	Live     bool
+}
+
+// livelock ends the run: the busiest tasks are named, and the one holding the token hands over
+// its stack.
+func (k *kernel) livelock(cur *ktask) {
+	for id, n := range k.winCount {
+		h := HotTask{ID: id, Steps: n}
+		for _, t := range k.tasks {
+			if t.id == id {
+				h.Kind, h.GoSite, h.LastSite, h.Live = t.kind, t.site, t.lastSite, true
+			}
+		}
+		k.out.HotTasks = append(k.out.HotTasks, h)
+	}
+	sort.Slice(k.out.HotTasks, func(i, j int) bool {
+		a, b := k.out.HotTasks[i], k.out.HotTasks[j]
+		if a.Steps != b.Steps {
+			return a.Steps > b.Steps
+		}
+		return a.ID < b.ID
+	})
+	if len(k.out.HotTasks) > 6 {
+		k.out.HotTasks = k.out.HotTasks[:6]
+	}
+	k.out.Deadlock = fmt.Sprintf("no progress: the step budget ran out (virtual time %d) after %d scheduling points during which the scenario driver did not act and either the clock stood still or one task took a quarter or more of them; busiest tasks %+v", k.now, k.steps-k.winStart, k.out.HotTasks)
+	if cur.state != tsDone && k.out.Status == "" {
+		dumpReq = true
+		cur.ctx.in = reply{}
+		semrelease(&cur.ctx.sema, true, 0)
+		semacquire(&ksema)
+		k.out.DumpTask = cur.id
+		k.out.PanicText = fmt.Sprintf("stack of task %d (holding the token when the budget ran out):\n%s", cur.id, hangDump)
+	}
+	k.end(StatusLivelock)
 }
 
 // stepBeat is the kernel's step counter as seen by the spin watchdog.
